@@ -341,6 +341,52 @@ fn join_sim(v: &[u64]) -> (u64, u64) {
     sim_rayon::join(|| v[..h].iter().sum::<u64>(), || v[h..].iter().sum::<u64>())
 }
 
+macro_rules! both {
+    ($name:ident, |$v:ident, $w:ident| $body:expr) => {
+        mod $name {
+            pub fn real($v: &[u64], $w: &[u64]) -> String {
+                #[allow(unused_imports)]
+                use rayon::prelude::*;
+                format!("{:?}", $body)
+            }
+            pub fn sim($v: &[u64], $w: &[u64]) -> String {
+                #[allow(unused_imports)]
+                use sim_rayon::prelude::*;
+                format!("{:?}", $body)
+            }
+        }
+    };
+}
+// same source against the real rayon and the model (no std equivalent)
+both!(b_interleave, |v, w| v.par_iter().interleave(w.par_iter()).map(|x| *x).collect::<Vec<u64>>());
+both!(b_interleave_shortest, |v, w| v.par_iter().interleave_shortest(w.par_iter()).map(|x| *x).collect::<Vec<u64>>());
+both!(b_multizip2, |v, w| (v.par_iter(), w.par_iter()).into_par_iter().map(|(a, b)| a * 1000 + b).collect::<Vec<u64>>());
+both!(b_multizip3, |v, w| (v.par_iter(), w.par_iter(), v.par_iter()).into_par_iter().map(|(a, b, c)| a + b + c).collect::<Vec<u64>>());
+both!(b_fold_chunks, |v, _w| v.par_iter().fold_chunks(3, || 0u64, |a, x| a * 7 + x).collect::<Vec<u64>>());
+both!(b_try_fold_reduce, |v, _w| v
+    .par_iter()
+    .try_fold(|| 0u64, |a, x| a.checked_add(*x))
+    .try_reduce(|| 0u64, |a, b| a.checked_add(b)));
+both!(b_try_fold_fail, |v, _w| v
+    .par_iter()
+    .try_fold(|| 0u64, |a, x| if *x == 999 { None } else { Some(a + x) })
+    .try_reduce(|| 0u64, |a, b| Some(a + b))
+    .is_some()
+    == v.iter().all(|x| *x != 999));
+both!(b_par_drain, |v, _w| {
+    let mut x = v.to_vec();
+    let lo = x.len() / 4;
+    let hi = x.len() - x.len() / 4;
+    let d: Vec<u64> = x.par_drain(lo..hi).map(|y| y + 1).collect();
+    (d, x)
+});
+both!(b_collect_vec_list, |v, _w| v.par_iter().map(|x| x + 2).collect_vec_list().into_iter().flatten().collect::<Vec<u64>>());
+
+fn take_any_sim(v: &[u64], n: usize) -> Vec<(usize, u64)> {
+    use sim_rayon::prelude::*;
+    v.par_iter().copied().enumerate().take_any(n).collect()
+}
+
 fn thread_index_sim() -> (bool, usize) {
     use sim_rayon::prelude::*;
     let k = sim_rayon::current_num_threads();
@@ -387,6 +433,50 @@ fn main() {
                 bad += 1;
                 mismatch(name, k, format!("n={} sim={} expected={}", n, got, expect));
             }
+        }
+    }
+
+    // model vs real rayon on the same source
+    type B = (&'static str, fn(&[u64], &[u64]) -> String, fn(&[u64], &[u64]) -> String);
+    let boths: Vec<B> = vec![
+        ("interleave", b_interleave::real, b_interleave::sim),
+        ("interleave_shortest", b_interleave_shortest::real, b_interleave_shortest::sim),
+        ("multizip2", b_multizip2::real, b_multizip2::sim),
+        ("multizip3", b_multizip3::real, b_multizip3::sim),
+        ("fold_chunks", b_fold_chunks::real, b_fold_chunks::sim),
+        ("try_fold_reduce", b_try_fold_reduce::real, b_try_fold_reduce::sim),
+        ("try_fold_fail", b_try_fold_fail::real, b_try_fold_fail::sim),
+        ("par_drain", b_par_drain::real, b_par_drain::sim),
+        ("collect_vec_list", b_collect_vec_list::real, b_collect_vec_list::sim),
+    ];
+    for (bi, (name, real, sim)) in boths.iter().enumerate() {
+        for k in 0..per {
+            let mut s = seed ^ 0x77_0000_0000 ^ ((bi as u64) << 24) ^ k;
+            let n = [0usize, 1, 2, 3, 5, 8, 13, 31, 64][(sm(&mut s) % 9) as usize];
+            let v = data(sm(&mut s), n);
+            let w = data(sm(&mut s), if k % 2 == 0 { n } else { (n + 3) / 2 });
+            let expect = real(&v, &w);
+            let (sim_fn, vv, ww) = (*sim, v.clone(), w.clone());
+            let got = under_sim(sm(&mut s), move || sim_fn(&vv, &ww));
+            evals += 1;
+            if got != expect {
+                bad += 1;
+                mismatch(name, k, format!("n={} sim={} real={}", n, got, expect));
+            }
+        }
+    }
+    for k in 0..per {
+        let mut s = seed ^ 0x55_0000 ^ k;
+        let n = 1 + (sm(&mut s) % 40) as usize;
+        let v = data(sm(&mut s), n);
+        let take = (sm(&mut s) % (n as u64 + 2)) as usize;
+        let vv = v.clone();
+        let got = under_sim(sm(&mut s), move || take_any_sim(&vv, take));
+        evals += 1;
+        let legal = got.len() == take.min(n) && got.windows(2).all(|p| p[0].0 < p[1].0) && got.iter().all(|(i, x)| v[*i] == *x);
+        if !legal {
+            bad += 1;
+            mismatch("take_any_legal", k, format!("{:?}", got));
         }
     }
 
@@ -509,6 +599,6 @@ fn main() {
             println!("MODEL-MISMATCH reach: never observed: {}", what);
         }
     }
-    println!("modelcheck: templates={} evaluations={} mismatches={}", tpls.len() + 12, evals, bad);
+    println!("modelcheck: templates={} evaluations={} mismatches={}", tpls.len() + boths.len() + 13, evals, bad);
     std::process::exit(if bad == 0 { 0 } else { 1 });
 }
